@@ -1,4 +1,4 @@
-import AndaVerif.Model.Collection
+import AndaVerif.Model.CollQuery
 import AndaVerif.Drv.Util
 /-
 Line protocol of the collection model (shared by `drv_c02` and `drv_c04`).
@@ -13,6 +13,11 @@ Line protocol of the collection model (shared by `drv_c02` and `drv_c04`).
                                                driver applies before the first following data line)
   flush                            → `ok`
   dump                             → the canonical observable state, one line
+  q <name> <rq>                    → `ids <csv>` | `err:index`   (`Filter::Field((name, rq))`, ids ascending)
+       rq ::= leaf | or(leaf|leaf…) | and(leaf|leaf…) | not(leaf)
+       leaf ::= eq:k | gt:k | ge:k | lt:k | le:k | bw:a:b | in:<csv|->
+Every answer to a state-changing line carries the model's branch tag after ` #` (`Model/CollQuery.lean`,
+`tagOf`): the harness strips it before comparing and counts it.
 val ::= ~ | i<int> | a<csv|-> | m<csv|-> | t<csv|-> | v<dim>
 -/
 open AndaVerif.Collection AndaVerif.Drv
@@ -103,8 +108,33 @@ def dump (s : State) : String :=
   let hns := sortStrs (s.ix.hn.map (fun h => s!"hn{h.field}[n{h.ids.length}]: " ++ showNats (sortNats h.ids)))
   s!"ids={showNats s.ids} len={s.ids.length} docs=" ++ " ".intercalate docs ++ " | " ++ " | ".intercalate (bts ++ txs ++ hns)
 
+def parseLeaf (t : String) : Option (RQ Int) :=
+  match t.splitOn ":" with
+  | ["eq", a] => a.toInt?.map .eq
+  | ["gt", a] => a.toInt?.map .gt
+  | ["ge", a] => a.toInt?.map .ge
+  | ["lt", a] => a.toInt?.map .lt
+  | ["le", a] => a.toInt?.map .le
+  | ["bw", a, b] => do let a ← a.toInt?; let b ← b.toInt?; pure (.between a b)
+  | ["in", ks] => (intList? ks).map .incl
+  | _ => none
+
+def inner (t : String) (pre : String) : Option String :=
+  if t.startsWith pre && t.endsWith ")" then some ((t.drop pre.length).dropEnd 1).toString else none
+
+def parseRQ (t : String) : Option (RQ Int) :=
+  match inner t "or(" with
+  | some b => ((b.splitOn "|").mapM parseLeaf).map .or
+  | none =>
+    match inner t "and(" with
+    | some b => ((b.splitOn "|").mapM parseLeaf).map .and
+    | none =>
+      match inner t "not(" with
+      | some b => (parseLeaf b).map .not
+      | none => parseLeaf t
+
 def stepLine1 (s : State) (line : String) : State × String :=
-  let run (op : Op) : State × String := let r := step s op; (r.1, showOut r.2)
+  let run (op : Op) : State × String := let r := step s op; (r.1, showOut r.2 ++ " #" ++ tagOf s op)
   match words line with
   | "schema" :: defs =>
       match defs.mapM parseFieldDef with
@@ -149,6 +179,13 @@ def stepLine1 (s : State) (line : String) : State × String :=
   | ["reopen"] => run .reopen
   | ["flush"] => run .flush
   | ["dump"] => (s, dump s)
+  | ["q", name, rq] =>
+      match name.toNat?, parseRQ rq with
+      | some n, some q =>
+          (s, match fieldFilter s n q with
+              | none => "err:index"
+              | some ids => "ids " ++ showNats (sortNats ids))
+      | _, _ => (s, "bad-op")
   | ["poisoned"] => (s, if s.poisoned then "1" else "0")
   | _ => (s, "bad-op")
 
